@@ -1,1 +1,533 @@
-//! Property-specific engine extensions for C08 (owned by the C08 check).
+//! Property-specific engine extensions for C08 (owned by the C08 check): sends with chosen CLTV deltas /
+//! fees, block delivery to a subset of nodes (singly or as a burst), a pump that respects withheld
+//! links, a confirmation scheduler for the consensus simulator and a height-stamped view of the log.
+
+use crate::ops::{CType, Topology, WorldSpec};
+use crate::sim::*;
+use bitcoin::{OutPoint, Transaction, Txid};
+use lightning::events::Event;
+use lightning::ln::channelmanager::PaymentId;
+use lightning::ln::functional_test_utils::get_payment_preimage_hash;
+use lightning::ln::outbound_payment::RecipientOnionFields;
+use lightning::types::payment::PaymentHash;
+use std::collections::{BTreeMap, BTreeSet};
+
+// -------------------------------------------------------------------------------------------------
+// The library's deadlines, as documented. Public constants are taken from the library; crate-private
+// ones are restated from their documentation and pinned by the checks at both sides of each boundary.
+// -------------------------------------------------------------------------------------------------
+
+pub use lightning::chain::channelmonitor::{ANTI_REORG_DELAY, HTLC_FAIL_BACK_BUFFER};
+pub use lightning::ln::channelmanager::{MIN_CLTV_EXPIRY_DELTA, MIN_FINAL_CLTV_EXPIRY_DELTA};
+
+/// channelmonitor::MAX_BLOCKS_FOR_CONF (crate-private): "The upper bound on how many blocks we think it
+/// can take for us to get a transaction confirmed."
+pub const MAX_BLOCKS_FOR_CONF: u32 = 18;
+/// channelmonitor::CLTV_CLAIM_BUFFER (crate-private): "If an HTLC expires within this many blocks,
+/// force-close the channel to broadcast the HTLC-Success transaction. This is two times
+/// MAX_BLOCKS_FOR_CONF".
+pub const CLTV_CLAIM_BUFFER: u32 = 2 * MAX_BLOCKS_FOR_CONF;
+/// channelmonitor::LATENCY_GRACE_PERIOD_BLOCKS (crate-private): blocks granted to the peer after an
+/// outbound HTLC expired before going on chain. The public HTLC_FAIL_BACK_BUFFER is documented as
+/// CLTV_CLAIM_BUFFER + LATENCY_GRACE_PERIOD_BLOCKS, which ties the two restated values to a public one.
+pub const LATENCY_GRACE_PERIOD_BLOCKS: u32 = 3;
+/// channelmanager::CLTV_FAR_FAR_AWAY (crate-private): two weeks of blocks (BOLT 4 `expiry_too_far`).
+pub const CLTV_FAR_FAR_AWAY: u32 = 14 * 24 * 6;
+
+/// Compile-time relations documented by the library (static assertions in channelmanager.rs).
+pub fn constants_consistent() -> Result<(), String> {
+	if HTLC_FAIL_BACK_BUFFER != CLTV_CLAIM_BUFFER + LATENCY_GRACE_PERIOD_BLOCKS {
+		return Err(format!("HTLC_FAIL_BACK_BUFFER {} != CLTV_CLAIM_BUFFER {} + LATENCY_GRACE_PERIOD_BLOCKS {}", HTLC_FAIL_BACK_BUFFER, CLTV_CLAIM_BUFFER, LATENCY_GRACE_PERIOD_BLOCKS));
+	}
+	if (MIN_CLTV_EXPIRY_DELTA as u32) < 2 * LATENCY_GRACE_PERIOD_BLOCKS + 2 * MAX_BLOCKS_FOR_CONF + ANTI_REORG_DELAY {
+		return Err("MIN_CLTV_EXPIRY_DELTA does not cover grace + two confirmations + anti-reorg delay".into());
+	}
+	if MIN_FINAL_CLTV_EXPIRY_DELTA as u32 != HTLC_FAIL_BACK_BUFFER + 3 {
+		return Err("MIN_FINAL_CLTV_EXPIRY_DELTA != HTLC_FAIL_BACK_BUFFER + 3".into());
+	}
+	Ok(())
+}
+
+// -------------------------------------------------------------------------------------------------
+// worlds
+// -------------------------------------------------------------------------------------------------
+
+/// A plain world (roomy channels, no dust / reserve / in-flight edge effects) in which only the
+/// timing-relevant parameters vary.
+pub fn timing_world(topo: Topology, ctype: CType, cltv_delta: u16, fee_base_msat: u32, fee_ppm: u32, styles: &[u8]) -> WorldSpec {
+	WorldSpec {
+		topo,
+		ctype,
+		value_sat: vec![1_000_000],
+		push_permille: vec![500],
+		reserve_ppm: 10_000,
+		htlc_min_msat: 1,
+		inflight_pct: 100,
+		max_accepted: 50,
+		dust_exposure_fixed_msat: None,
+		dust_exposure_multiplier: 10_000,
+		fee_base_msat,
+		fee_ppm,
+		cltv_delta,
+		feerate: 253,
+		deferred: false,
+		connect_style: 0,
+		node_styles: styles.to_vec(),
+	}
+}
+
+// -------------------------------------------------------------------------------------------------
+// engine additions
+// -------------------------------------------------------------------------------------------------
+
+impl Sim {
+	pub fn height_of(&self, node: usize) -> u32 {
+		self.w.nodes[node].best_block_info().1
+	}
+
+	/// Like `try_send`, but the final CLTV delta, the CLTV delta and the fee offered to the first
+	/// forwarding hop are chosen by the caller (`hop_delta_adj` / `hop_fee_adj` are added to what that
+	/// hop advertises).
+	pub fn send_custom(&mut self, from: usize, chans: &[usize], amt_msat: u64, final_cltv_delta: u32, hop_delta_adj: i32, hop_fee_adj: i64) -> Option<usize> {
+		let (mut route, nodes) = self.build_route(from, chans, amt_msat, final_cltv_delta)?;
+		if chans.len() > 1 {
+			let h = &mut route.paths[0].hops[0];
+			h.cltv_expiry_delta = (h.cltv_expiry_delta as i64 + hop_delta_adj as i64).max(0) as u32;
+			h.fee_msat = (h.fee_msat as i64 + hop_fee_adj).max(0) as u64;
+		}
+		// the sender's own sanity limit on the total CLTV is a router parameter, not part of the property
+		route.route_params.payment_params.max_total_cltv_expiry_delta = u32::MAX;
+		let to = *nodes.last().unwrap();
+		let (preimage, hash, secret) = get_payment_preimage_hash(&self.w.nodes[to], None, None);
+		let idn = self.next_payment_id;
+		self.next_payment_id += 1;
+		let mut idb = [0u8; 32];
+		idb[..8].copy_from_slice(&idn.to_be_bytes());
+		let id = PaymentId(idb);
+		let res = self.w.nodes[from].node.send_payment_with_route(route, hash, RecipientOnionFields::secret_only(secret, amt_msat), id);
+		let ok = res.is_ok();
+		self.rec(SEvent::Api { node: from, what: format!("send pay#{} amt={} chans={:?} final_delta={} hop_adj={}/{}", self.pays.len(), amt_msat, chans, final_cltv_delta, hop_delta_adj, hop_fee_adj), ok, detail: format!("{:?}", res) });
+		self.pays.push(PayInfo {
+			idx: self.pays.len(),
+			from,
+			to,
+			path_nodes: nodes,
+			path_chans: chans.to_vec(),
+			amt_msat,
+			cltv_expiry: self.chain.height() + 1 + final_cltv_delta,
+			hash,
+			preimage,
+			secret,
+			id,
+			state: if ok { PayState::Sent } else { PayState::Refused },
+			claimable_seen: false,
+			claimed_event: false,
+			sent_event: false,
+			failed_event: false,
+		});
+		self.w.nodes[from].chain_monitor.added_monitors.lock().unwrap().clear();
+		self.drain(from);
+		Some(self.pays.len() - 1)
+	}
+
+	/// Mine one block with `txs` on the global chain and hand it to the listed nodes only (the others fall
+	/// behind until `catch_up`).
+	pub fn mine_for(&mut self, txs: Vec<Transaction>, nodes: &[usize]) -> Vec<(Txid, crate::chain::Reject)> {
+		let (block, rejected) = self.chain.mine(txs);
+		let height = self.chain.height();
+		self.rec(SEvent::Mined { height, txids: block.txdata.iter().map(|t| t.compute_txid()).collect() });
+		for i in nodes {
+			self.catch_up(*i, false);
+		}
+		rejected
+	}
+
+	/// Mine `n` empty blocks and hand them to the listed nodes as one burst: a node whose delivery style
+	/// skips blocks learns only of the last one (as `Confirm` allows for blocks without relevant
+	/// transactions), the others get them one after the other without anything else happening in between.
+	pub fn mine_burst_for(&mut self, n: u32, nodes: &[usize]) {
+		for _ in 0..n {
+			let _ = self.chain.mine(vec![]);
+			let height = self.chain.height();
+			self.rec(SEvent::Mined { height, txids: vec![] });
+		}
+		for i in nodes {
+			self.catch_up(*i, true);
+		}
+	}
+
+	/// Deliver every block of the global chain the node has not seen yet. With `burst`, a node with a
+	/// block-skipping delivery style is told only about the last block of each run of empty blocks.
+	pub fn catch_up(&mut self, node: usize, burst: bool) {
+		let tip = self.chain.height();
+		let mut h = self.height_of(node) + 1;
+		let skips = burst && self.w.nodes[node].connect_style.borrow().skips_blocks();
+		while h <= tip {
+			let block = self.chain.blocks[h as usize].clone();
+			let next_empty = h < tip && self.chain.blocks[h as usize + 1].txdata.is_empty();
+			if skips && block.txdata.is_empty() && next_empty {
+				// skipped: the node's block source knows the block, LDK is not told
+				let nd = &self.w.nodes[node];
+				let mut bl = nd.blocks.lock().unwrap();
+				let nh = bl.last().unwrap().1 + 1;
+				bl.push((block, nh));
+			} else {
+				self.deliver_block(node, &block);
+			}
+			h += 1;
+		}
+	}
+
+	/// Deliver / forward / process events to quiescence among the `alive` nodes, never delivering on a
+	/// `blocked` directed link (a peer that is merely slow or silent). Returns false if the round bound
+	/// was hit.
+	pub fn pump_links(&mut self, alive: &[usize], blocked: &[(usize, usize)]) -> bool {
+		for _ in 0..80 {
+			let mut progress = false;
+			let live: Vec<(usize, usize)> = self
+				.links
+				.iter()
+				.filter(|(k, q)| !q.is_empty() && self.is_connected(k.0, k.1) && !blocked.contains(k) && alive.contains(&k.0) && alive.contains(&k.1))
+				.map(|(k, _)| *k)
+				.collect();
+			for (f, t) in live {
+				if self.deliver(f, t, 1) > 0 {
+					progress = true;
+				}
+			}
+			for i in alive.iter().cloned() {
+				if self.w.nodes[i].node.needs_pending_htlc_processing() {
+					self.process_forwards(i);
+					progress = true;
+				}
+				if !self.process_events(i).is_empty() {
+					progress = true;
+				}
+			}
+			if !progress {
+				return true;
+			}
+		}
+		false
+	}
+
+	/// Deliver everything queued on unblocked links without letting anyone forward or handle events (the
+	/// commitment dance completes, decisions that need `process_pending_htlc_forwards` do not happen).
+	pub fn flush_links(&mut self, blocked: &[(usize, usize)]) {
+		for _ in 0..200 {
+			let live: Vec<(usize, usize)> = self.links.iter().filter(|(k, q)| !q.is_empty() && self.is_connected(k.0, k.1) && !blocked.contains(k)).map(|(k, _)| *k).collect();
+			if live.is_empty() {
+				break;
+			}
+			for (f, t) in live {
+				self.deliver(f, t, 1);
+			}
+		}
+	}
+
+	/// Height of every node before the first block delivery recorded in the log (world construction confirms
+	/// the channels without logging): the last channel's funding height + confirmation depth - 1.
+	pub fn base_heights(&self) -> Vec<u32> {
+		let mut first: Vec<Option<u32>> = vec![None; self.w.n];
+		for (_, e) in self.log.iter() {
+			if let SEvent::BlockDelivered { node, .. } = e {
+				if first[*node].is_none() {
+					first[*node] = Some(0);
+				}
+			}
+		}
+		let built = self.chans.iter().filter_map(|c| self.chain.confirmed.get(&c.funding_tx.compute_txid()).map(|x| x.1)).max().map(|h| h + lightning::ln::functional_test_utils::CHAN_CONFIRM_DEPTH - 1).unwrap_or(0);
+		(0..self.w.n).map(|i| if first[i].is_some() { built } else { self.height_of(i) }).collect()
+	}
+
+	pub fn funding_outpoint(&self, chan: usize) -> OutPoint {
+		OutPoint { txid: self.chans[chan].funding_tx.compute_txid(), vout: 0 }
+	}
+
+	/// Is the channel still open (listed and not shutting down) at `node`?
+	pub fn chan_open_at(&self, node: usize, chan: usize) -> bool {
+		self.chan_details(node, chan).is_some()
+	}
+}
+
+// -------------------------------------------------------------------------------------------------
+// confirmation scheduler: which mempool transactions go into the next block
+// -------------------------------------------------------------------------------------------------
+
+/// When broadcast transactions confirm. All delays are in blocks and stay within MAX_BLOCKS_FOR_CONF.
+#[derive(Clone, Debug)]
+pub struct ConfPlan {
+	/// a transaction spending a funding output first broadcast at chain height s is mined in block s + d_commit
+	pub d_commit: u32,
+	/// a spend of the tracked HTLC output is mined d_htlc blocks after it became minable (its parent confirmed
+	/// and it was broadcast); 0 = same block as the parent if already known
+	pub d_htlc: u32,
+	/// whose spend of the tracked HTLC output is mined when several compete (None: first come)
+	pub htlc_winner: Option<usize>,
+	/// sat value of the tracked HTLC's output
+	pub htlc_sat: u64,
+}
+
+#[derive(Clone, Debug, Default)]
+pub struct ChainView {
+	/// txid -> (broadcasting node, chain height at first broadcast)
+	pub first_seen: BTreeMap<Txid, (usize, u32)>,
+	/// per channel: first broadcast of any transaction spending its funding output: (node, chain height, node height, txid)
+	pub commit_broadcast: BTreeMap<usize, Vec<(usize, u32, u32, Txid)>>,
+	/// per channel: the confirmed funding spend (txid, height)
+	pub commit_confirmed: BTreeMap<usize, (Txid, u32)>,
+	/// per channel: the tracked HTLC output on the confirmed commitment
+	pub htlc_outpoint: BTreeMap<usize, OutPoint>,
+	/// per channel: confirmed spend of the tracked HTLC output: (txid, height, broadcasting node, carries a 32-byte preimage-sized witness item)
+	pub htlc_spend: BTreeMap<usize, (Txid, u32, Option<usize>, bool)>,
+	/// per channel and node: chain height at which that node first broadcast a spend of the tracked HTLC output
+	pub htlc_spend_seen: BTreeMap<(usize, usize), u32>,
+}
+
+/// Does the input's witness carry a 32-byte item that hashes to the payment hash (an HTLC claimed with
+/// the preimage, BOLT 3)?
+pub fn witness_has_preimage(tx: &Transaction, input: usize, hash: &PaymentHash) -> bool {
+	use bitcoin::hashes::{sha256, Hash};
+	tx.input[input].witness.iter().any(|item| item.len() == 32 && sha256::Hash::hash(item).to_byte_array() == hash.0)
+}
+
+/// Recompute what the chain and the log say about commitments and the tracked HTLC (value `htlc_sat`,
+/// payment hash `hash`).
+pub fn chain_view(sim: &Sim, htlc_sat: u64, hash: &PaymentHash) -> ChainView {
+	let mut v = ChainView::default();
+	let mut heights = sim.base_heights();
+	let funding: Vec<OutPoint> = (0..sim.chans.len()).map(|c| sim.funding_outpoint(c)).collect();
+	let mut bcasts: Vec<(usize, u32, u32, Transaction)> = vec![];
+	for (_, e) in sim.log.iter() {
+		match e {
+			SEvent::BlockDelivered { node, height } => heights[*node] = heights[*node].max(*height),
+			SEvent::Broadcast { node, tx, height, .. } => {
+				let txid = tx.compute_txid();
+				v.first_seen.entry(txid).or_insert((*node, *height));
+				bcasts.push((*node, *height, heights[*node], tx.clone()));
+				for (ci, fo) in funding.iter().enumerate() {
+					if tx.input.iter().any(|i| i.previous_output == *fo) {
+						let e = v.commit_broadcast.entry(ci).or_default();
+						if !e.iter().any(|x| x.3 == txid) {
+							e.push((*node, *height, heights[*node], txid));
+						}
+					}
+				}
+			},
+			_ => {},
+		}
+	}
+	for (ci, fo) in funding.iter().enumerate() {
+		if let Some(spender) = sim.chain.spent_by.get(fo) {
+			if let Some((tx, h)) = sim.chain.confirmed.get(spender) {
+				v.commit_confirmed.insert(ci, (*spender, *h));
+				if let Some(vout) = tx.output.iter().position(|o| o.value.to_sat() == htlc_sat && o.script_pubkey.is_p2wsh()) {
+					let op = OutPoint { txid: *spender, vout: vout as u32 };
+					v.htlc_outpoint.insert(ci, op);
+					if let Some(sp) = sim.chain.spent_by.get(&op) {
+						if let Some((stx, sh)) = sim.chain.confirmed.get(sp) {
+							let idx = stx.input.iter().position(|i| i.previous_output == op).unwrap();
+							v.htlc_spend.insert(ci, (*sp, *sh, v.first_seen.get(sp).map(|x| x.0), witness_has_preimage(stx, idx, hash)));
+						}
+					}
+					for (node, ch, _, tx) in bcasts.iter() {
+						if tx.input.iter().any(|i| i.previous_output == op) {
+							let e = v.htlc_spend_seen.entry((ci, *node)).or_insert(*ch);
+							*e = (*e).min(*ch);
+						}
+					}
+				}
+			}
+		}
+	}
+	v
+}
+
+/// Choose the transactions of the next block according to the plan. Everything that is neither a funding
+/// spend nor a spend of the tracked HTLC output is mined as soon as it is valid.
+pub fn next_block_txs(sim: &Sim, plan: &ConfPlan, hash: &PaymentHash) -> Vec<Transaction> {
+	let view = chain_view(sim, plan.htlc_sat, hash);
+	let next_h = sim.chain.height() + 1;
+	let funding: Vec<OutPoint> = (0..sim.chans.len()).map(|c| sim.funding_outpoint(c)).collect();
+	let tracked: BTreeSet<OutPoint> = view.htlc_outpoint.values().cloned().collect();
+	let mut out: Vec<Transaction> = vec![];
+	let mut included: BTreeSet<Txid> = BTreeSet::new();
+	// unconfirmed commitments in the mempool whose HTLC output must be treated as tracked as well
+	let mut pending_tracked: BTreeSet<OutPoint> = BTreeSet::new();
+	for tx in sim.chain.mempool.iter() {
+		if tx.input.iter().any(|i| funding.contains(&i.previous_output)) {
+			if let Some(vout) = tx.output.iter().position(|o| o.value.to_sat() == plan.htlc_sat && o.script_pubkey.is_p2wsh()) {
+				pending_tracked.insert(OutPoint { txid: tx.compute_txid(), vout: vout as u32 });
+			}
+		}
+	}
+	for tx in sim.chain.mempool.iter() {
+		let txid = tx.compute_txid();
+		let who = view.first_seen.get(&txid).map(|x| x.0);
+		if let Some(ci) = funding.iter().position(|fo| tx.input.iter().any(|i| i.previous_output == *fo)) {
+			let first = view.commit_broadcast.get(&ci).and_then(|v| v.iter().map(|x| x.1).min()).unwrap_or(0);
+			if next_h >= first + plan.d_commit {
+				out.push(tx.clone());
+				included.insert(txid);
+			}
+			continue;
+		}
+		let winner_ok = plan.htlc_winner.is_none() || plan.htlc_winner == who;
+		if tx.input.iter().any(|i| pending_tracked.contains(&i.previous_output)) {
+			// spends the tracked HTLC output of a commitment that is not confirmed yet: only in the same block
+			// as its parent, and only if the plan says "no delay"
+			if plan.d_htlc == 0 && winner_ok && tx.input.iter().all(|i| !pending_tracked.contains(&i.previous_output) || included.contains(&i.previous_output.txid)) {
+				out.push(tx.clone());
+				included.insert(txid);
+			}
+			continue;
+		}
+		if let Some(op) = tx.input.iter().map(|i| i.previous_output).find(|op| tracked.contains(op)) {
+			let ci = *view.htlc_outpoint.iter().find(|(_, o)| **o == op).unwrap().0;
+			if !winner_ok {
+				continue;
+			}
+			let conf_h = view.commit_confirmed[&ci].1;
+			// chain height at which this node first broadcast a spend of that output (re-bumped versions share it)
+			let seen = who.and_then(|w| view.htlc_spend_seen.get(&(ci, w)).cloned()).unwrap_or(conf_h);
+			let target = (conf_h.max(seen) + plan.d_htlc).max(seen + 1).max(conf_h + 1);
+			if next_h >= target {
+				out.push(tx.clone());
+				included.insert(txid);
+			}
+			continue;
+		}
+		// children of unconfirmed parents only together with / after the parent
+		let parents_ok = tx.input.iter().all(|i| sim.chain.utxo.contains_key(&i.previous_output) || included.contains(&i.previous_output.txid));
+		if parents_ok {
+			out.push(tx.clone());
+			included.insert(txid);
+		}
+	}
+	out
+}
+
+// -------------------------------------------------------------------------------------------------
+// a height-stamped view of what the nodes did
+// -------------------------------------------------------------------------------------------------
+
+#[derive(Clone, Debug)]
+pub struct HtlcMsg {
+	pub step: u64,
+	pub from: usize,
+	pub to: usize,
+	pub chan: usize,
+	pub htlc_id: u64,
+	pub hash: Option<PaymentHash>,
+	pub cltv: u32,
+	pub amt_msat: u64,
+	/// best height of the emitting node when it emitted the message
+	pub h_from: u32,
+}
+
+#[derive(Clone, Debug, Default)]
+pub struct Timeline {
+	pub adds: Vec<HtlcMsg>,
+	pub fails: Vec<HtlcMsg>,
+	pub fulfills: Vec<HtlcMsg>,
+	/// (step, node, node height, event)
+	pub events: Vec<(u64, usize, u32, Event)>,
+	/// (step, node, node height, previous node height, chain height, tx): node height = after the block
+	/// delivery during which the broadcast happened; previous = the node's height before that delivery
+	pub broadcasts: Vec<(u64, usize, u32, u32, u32, Transaction)>,
+}
+
+impl Timeline {
+	pub fn build(sim: &Sim) -> Timeline {
+		let mut t = Timeline::default();
+		let mut heights = sim.base_heights();
+		let mut prev_heights = heights.clone();
+		// (chan index, adding node, htlc id) -> hash
+		let mut ids: BTreeMap<(usize, usize, u64), PaymentHash> = BTreeMap::new();
+		let chan_of = |id: &lightning::ln::types::ChannelId| sim.chans.iter().position(|c| c.id == *id);
+		for (step, e) in sim.log.iter() {
+			match e {
+				SEvent::BlockDelivered { node, height } => {
+					// no reorganisations in these scenarios: heights only grow (the wallet-funding block of world
+					// construction is logged before the unlogged channel confirmations)
+					if *height > heights[*node] {
+						prev_heights[*node] = heights[*node];
+						heights[*node] = *height;
+					}
+				},
+				SEvent::Emit { from, to, wire } | SEvent::Dropped { from, to, wire } => {
+					let emitted = matches!(e, SEvent::Emit { .. });
+					match wire {
+						Wire::Add(m) => {
+							if let Some(c) = chan_of(&m.channel_id) {
+								ids.insert((c, *from, m.htlc_id), m.payment_hash);
+								if emitted {
+									t.adds.push(HtlcMsg { step: *step, from: *from, to: *to, chan: c, htlc_id: m.htlc_id, hash: Some(m.payment_hash), cltv: m.cltv_expiry, amt_msat: m.amount_msat, h_from: heights[*from] });
+								}
+							}
+						},
+						Wire::Fail(m) => {
+							if let Some(c) = chan_of(&m.channel_id) {
+								t.fails.push(HtlcMsg { step: *step, from: *from, to: *to, chan: c, htlc_id: m.htlc_id, hash: ids.get(&(c, *to, m.htlc_id)).cloned(), cltv: 0, amt_msat: 0, h_from: heights[*from] });
+							}
+						},
+						Wire::FailMalformed(m) => {
+							if let Some(c) = chan_of(&m.channel_id) {
+								t.fails.push(HtlcMsg { step: *step, from: *from, to: *to, chan: c, htlc_id: m.htlc_id, hash: ids.get(&(c, *to, m.htlc_id)).cloned(), cltv: 0, amt_msat: 0, h_from: heights[*from] });
+							}
+						},
+						Wire::Fulfill(m) => {
+							if let Some(c) = chan_of(&m.channel_id) {
+								t.fulfills.push(HtlcMsg { step: *step, from: *from, to: *to, chan: c, htlc_id: m.htlc_id, hash: ids.get(&(c, *to, m.htlc_id)).cloned(), cltv: 0, amt_msat: 0, h_from: heights[*from] });
+							}
+						},
+						_ => {},
+					}
+				},
+				SEvent::Ldk { node, ev } => t.events.push((*step, *node, heights[*node], ev.clone())),
+				SEvent::Broadcast { node, tx, height, .. } => t.broadcasts.push((*step, *node, heights[*node], prev_heights[*node], *height, tx.clone())),
+				_ => {},
+			}
+		}
+		t
+	}
+
+	pub fn claimable(&self, node: usize, hash: &PaymentHash) -> Option<(u32, Option<u32>)> {
+		self.events.iter().find_map(|(_, n, h, ev)| match ev {
+			Event::PaymentClaimable { payment_hash, claim_deadline, .. } if *n == node && payment_hash == hash => Some((*h, *claim_deadline)),
+			_ => None,
+		})
+	}
+	pub fn claimed(&self, node: usize, hash: &PaymentHash) -> bool {
+		self.events.iter().any(|(_, n, _, ev)| matches!(ev, Event::PaymentClaimed { payment_hash, .. } if *n == node && payment_hash == hash))
+	}
+	pub fn sent(&self, node: usize, hash: &PaymentHash) -> bool {
+		self.events.iter().any(|(_, n, _, ev)| matches!(ev, Event::PaymentSent { payment_hash, .. } if *n == node && payment_hash == hash))
+	}
+	pub fn failed(&self, node: usize, hash: &PaymentHash) -> bool {
+		self.events.iter().any(|(_, n, _, ev)| matches!(ev, Event::PaymentFailed { payment_hash, .. } if *n == node && *payment_hash == Some(*hash)))
+	}
+	/// ChannelClosed events seen by `node` for channel index `chan`
+	pub fn closed(&self, sim: &Sim, node: usize, chan: usize) -> Option<(u32, String)> {
+		let id = sim.chans[chan].id;
+		self.events.iter().find_map(|(_, n, h, ev)| match ev {
+			Event::ChannelClosed { channel_id, reason, .. } if *n == node && *channel_id == id => Some((*h, format!("{:?}", reason))),
+			_ => None,
+		})
+	}
+	pub fn add_of(&self, from: usize, to: usize, hash: &PaymentHash) -> Option<&HtlcMsg> {
+		self.adds.iter().find(|m| m.from == from && m.to == to && m.hash == Some(*hash))
+	}
+	pub fn fail_of(&self, from: usize, to: usize, hash: &PaymentHash) -> Option<&HtlcMsg> {
+		self.fails.iter().find(|m| m.from == from && m.to == to && m.hash == Some(*hash))
+	}
+	pub fn fulfill_of(&self, from: usize, to: usize, hash: &PaymentHash) -> Option<&HtlcMsg> {
+		self.fulfills.iter().find(|m| m.from == from && m.to == to && m.hash == Some(*hash))
+	}
+	/// first broadcast by `node` of a transaction spending the funding output of `chan`:
+	/// (node height, node height before that block delivery, txid)
+	pub fn first_commit_broadcast(&self, sim: &Sim, node: usize, chan: usize) -> Option<(u32, u32, Txid)> {
+		let fo = sim.funding_outpoint(chan);
+		self.broadcasts.iter().find(|(_, n, _, _, _, tx)| *n == node && tx.input.iter().any(|i| i.previous_output == fo)).map(|(_, _, h, p, _, tx)| (*h, *p, tx.compute_txid()))
+	}
+}
